@@ -290,6 +290,9 @@ type OptimizeResult struct {
 	Err   error
 	Panic string
 	Mappings int
+	// Again runs Optimize once more on the same rediff context with the same pools (nil if the
+	// first run failed)
+	Again func() *OptimizeResult
 }
 
 // Optimize runs rediff over patch with old/new builds on disk.
@@ -312,9 +315,10 @@ func Optimize(patch []byte, oldDir, newDir string, k OptimizeKnobs, slice *Slice
 		}
 		res.Mappings = len(rc.GetDiffMappings())
 		out := &Writer{Name: "optpatch", Yield: yield}
+		tp, sp := fspool.New(rc.GetTargetContainer(), oldDir), fspool.New(rc.GetSourceContainer(), newDir)
 		err = rc.Optimize(rediff.OptimizeParams{
-			TargetPool:  fspool.New(rc.GetTargetContainer(), oldDir),
-			SourcePool:  fspool.New(rc.GetSourceContainer(), newDir),
+			TargetPool:  tp,
+			SourcePool:  sp,
 			PatchWriter: out,
 		})
 		if err != nil {
@@ -322,6 +326,18 @@ func Optimize(patch []byte, oldDir, newDir string, k OptimizeKnobs, slice *Slice
 			return
 		}
 		res.Patch = out.Bytes()
+		res.Again = func() *OptimizeResult {
+			r2 := &OptimizeResult{Mappings: res.Mappings}
+			r2.Panic = Recover(func() {
+				out2 := &Writer{Name: "optpatch2"}
+				if err := rc.Optimize(rediff.OptimizeParams{TargetPool: tp, SourcePool: sp, PatchWriter: out2}); err != nil {
+					r2.Err = fmt.Errorf("second Optimize on the same context: %w", err)
+					return
+				}
+				r2.Patch = out2.Bytes()
+			})
+			return r2
+		}
 	})
 	return res
 }
